@@ -2,6 +2,54 @@ use datasketches::countmin::CountMinSketch;
 
 use crate::{Family, Ob, ERR, PANIC};
 
+/// an item that is not an `i64`: std's `Hash` impl of these types makes several `write` calls
+/// or one long write (kind codes: tools/families/countmin.py)
+pub enum Item {
+    Str(String),
+    Pair(u64, u64),
+    U128(u128),
+    Bytes(Vec<u8>),
+    Quad(u64, u64, u64, u64),
+}
+
+/// `kind :: payload` at the end of the op arguments
+pub fn parse_item(a: &[i128]) -> Item {
+    match a[0] {
+        0 => Item::Str(a[1..].iter().map(|b| *b as u8 as char).collect()),
+        1 => Item::Pair(a[1] as u64, a[2] as u64),
+        2 => Item::U128(((a[2] as u64 as u128) << 64) | (a[1] as u64 as u128)),
+        3 => Item::Bytes(a[1..].iter().map(|b| *b as u8).collect()),
+        _ => Item::Quad(a[1] as u64, a[2] as u64, a[3] as u64, a[4] as u64),
+    }
+}
+
+macro_rules! with_item {
+    ($it:expr, $x:ident => $e:expr) => {
+        match $it {
+            Item::Str(ref s) => {
+                let $x = s.as_str();
+                $e
+            }
+            Item::Pair(p, q) => {
+                let $x = (p, q);
+                $e
+            }
+            Item::U128(v) => {
+                let $x = v;
+                $e
+            }
+            Item::Bytes(ref b) => {
+                let $x = &b[..];
+                $e
+            }
+            Item::Quad(p, q, r, t) => {
+                let $x = (p, q, r, t);
+                $e
+            }
+        }
+    };
+}
+
 macro_rules! cm_ops {
     ($t:ty, $slots:expr, $cfg:expr, $code:expr, $a:expr) => {{
         let slots: &mut Vec<Option<CountMinSketch<$t>>> = $slots;
@@ -46,6 +94,23 @@ macro_rules! cm_ops {
             11 => {
                 let s = slots[slot].as_ref().unwrap();
                 vec![s.lower_bound(a[1] as i64) as i128, s.upper_bound(a[1] as i64) as i128]
+            }
+            12 => {
+                let it = parse_item(&a[3 + nh as usize..]);
+                let w = a[2] as $t;
+                let s = slots[slot].as_mut().unwrap();
+                with_item!(it, x => s.update_with_weight(x, w));
+                vec![]
+            }
+            13 => {
+                let it = parse_item(&a[2 + nh as usize..]);
+                let s = slots[slot].as_ref().unwrap();
+                vec![with_item!(it, x => s.estimate(x)) as i128]
+            }
+            14 => {
+                let it = parse_item(&a[2 + nh as usize..]);
+                let s = slots[slot].as_ref().unwrap();
+                vec![with_item!(it, x => s.lower_bound(x)) as i128, with_item!(it, x => s.upper_bound(x)) as i128]
             }
             10 => {
                 let bytes = slots[slot].as_ref().unwrap().serialize();
